@@ -409,6 +409,10 @@ def Op.isStep {X} : Op X → Bool | .step => true | _ => false
 /-- operations the property quantifies over: no user modification of particles -/
 def Op.benign {X} : Op X → Bool | .step | .synchronize | .read => true | _ => false
 
+/-- operations that are *kept* when the read-only / synchronize calls are filtered out of a
+    sequence: steps and everything the user does to flags or particles -/
+def Op.isKept {X} : Op X → Bool | .step | .setRecalc | .poke _ => true | _ => false
+
 def opOps {X} (c : Config) (f : Flags) : Op X → List Prim × Flags
   | .step => stepOps c f
   | .synchronize => syncOps c f
@@ -433,6 +437,10 @@ inductive MPrim where
   | com (τ : Coef)               -- reb_integrator_mercurius_com_step
   | keplerEncounter (τ : Coef)   -- backup; kepler_step; encounter_predict; encounter_step (506-516)
   | advT (τ : Coef)
+  /-- coarse replay (steps with close encounters, whose prediction / IAS15 sub-integration are
+      `static`): call the exported `reb_integrator_mercurius_part2` as a whole, with
+      `is_synchronized` set to what the flag machine says at this point -/
+  | part2 (isSync : Bool)
   deriving DecidableEq, Repr, Inhabited
 
 def MPrim.toString : MPrim → String
@@ -441,6 +449,7 @@ def MPrim.toString : MPrim → String
   | .updateAcc => "upd" | .interaction τ => "mI=" ++ τ.toString | .jump τ => "mJ=" ++ τ.toString
   | .com τ => "mC=" ++ τ.toString | .keplerEncounter τ => "mKE=" ++ τ.toString
   | .advT τ => "T=" ++ τ.toString
+  | .part2 b => if b then "mPart2=1" else "mPart2=0"
 
 structure MFlags where
   isSync : Bool        -- is_synchronized
@@ -485,6 +494,21 @@ def mStepOps (safe : Bool) (f : MFlags) : List MPrim × MFlags :=
   let (p1, f1) := mPart1Ops safe f
   let (p2, f2) := mPart2Ops safe f1
   (p1 ++ [.updateAcc] ++ p2, f2)
+
+/-- the same step at the granularity that is exported when a close encounter happens: part1 through
+    its primitives (allocation of `dcrit` / `encounter_map`, recalculation of coordinates and critical
+    radii, the synchronize it may need first), the acceleration update, then part2 as one call; the
+    flags after the step are those of the fine-grained machine -/
+def mStepOpsCoarse (safe : Bool) (f : MFlags) : List MPrim × MFlags :=
+  let (p1, f1) := mPart1Ops safe f
+  (p1 ++ [.updateAcc, .part2 f1.isSync], (mPart2Ops safe f1).2)
+
+def mOpOpsCoarse {X} (safe : Bool) (f : MFlags) : Op X → List MPrim × MFlags
+  | .step => mStepOpsCoarse safe f
+  | .synchronize => mSyncOps f
+  | .read => ([], f)
+  | .setRecalc => ([], { f with recalc := true })
+  | .poke _ => ([], f)
 
 /-- API ops for MERCURIUS: `setRecalc` sets `recalculate_coordinates_this_timestep` -/
 def mOpOps {X} (safe : Bool) (f : MFlags) : Op X → List MPrim × MFlags
